@@ -115,6 +115,10 @@ def run(ctx):
             w[0] = 0          # all-zero groups
         if i % 4 == 2:
             w[1] = w[1].abs() + mag   # one-sided row
+        if i % 2 == 1:
+            # rows of tiny magnitude: their float16 scales are subnormal (<= 6e-5), down to a few ulps
+            w[-1] = (torch.randn(K, generator=g) * 10.0 ** rng.uniform(-6.5, -4)).half()
+            w[-2] = (torch.randn(K, generator=g) * 3e-5).half()
         qb = q.quantize_weight(w, q.qint4, 0, 128)
         codes = qb._data.unpack()
         a = AWQBitsTensor(qb.qtype, qb.axis, qb._group_size, qb.size(), qb.stride(), codes, qb._scale, qb._zeropoint)
